@@ -362,6 +362,10 @@ cdef class CellIndexingNNPS(NNPS):
         cdef NNPSParticleArrayWrapper pa_wrapper = self.pa_wrappers[pa_index]
         cdef int num_particles = pa_wrapper.get_number_of_particles()
 
+        if num_particles == 0:
+            # Nothing to bin: the key table of an empty array stays empty.
+            return
+
         self.I[pa_index] = <u_int> (1 + log2(pa_wrapper.get_number_of_particles()))
 
         cdef u_int* current_keys = self.keys[pa_index]
